@@ -841,6 +841,58 @@ func sortedAfter(w *World, f *ssa.Function, hdr *ssa.BasicBlock, body map[*ssa.B
 
 func rulesC08(w *World, o *Out) {
 
+	// what a transaction goes through is the same on every node: no part of the ante chain is installed under a
+	// condition read from the node's own options (log level, home directory, flags)
+	if an := w.Func("app", "", "New"); an != nil {
+		nDec := 0
+		for _, b := range an.Blocks {
+			for _, in := range b.Instrs {
+				call, isCall := in.(ssa.CallInstruction)
+				if !isCall {
+					continue
+				}
+				cal, okc := CalleeOf(call.Common())
+				if !okc {
+					continue
+				}
+				nm := cal.Name
+				if !(strings.HasPrefix(nm, "New") && strings.HasSuffix(nm, "Decorator")) && nm != "ChainAnteDecorators" && nm != "SetAnteHandler" {
+					continue
+				}
+				nDec++
+				var cond []string
+				// walk up the dominator tree: a dominating two-way branch that is not a loop header and whose
+				// condition is computed from appOpts.Get decides whether this call runs
+				for d := b; d != nil; d = d.Idom() {
+					id := d.Idom()
+					if id == nil || len(id.Succs) != 2 || len(id.Instrs) == 0 {
+						continue
+					}
+					iff, isIf := id.Instrs[len(id.Instrs)-1].(*ssa.If)
+					if !isIf || inSameCycle(id, id) {
+						continue
+					}
+					// d must be reached through exactly one side of the branch
+					side := 0
+					for _, sc := range id.Succs {
+						if sc == d && len(d.Preds) == 1 {
+							side++
+						}
+					}
+					if side != 1 {
+						continue
+					}
+					if g := sliceHasOptionRead(iff.Cond); g != nil {
+						cond = append(cond, valDesc(g.Common().Args[0]))
+					}
+				}
+				sort.Strings(cond)
+				o.Check("C08.R1", "app.New|"+nm+" is installed whatever the node's options say", len(cond) == 0, w.Pos(in.Pos()), "this part of the ante chain is built under a condition on appOpts.Get("+strings.Join(cond, ",")+"): nodes configured differently run different checks on the same transaction")
+			}
+		}
+		o.Count("C08.R1 ante chain construction sites in app.New", nDec, 3)
+	}
+
 	fl := NewFlow(w)
 	o.Rule("C08.R1", "no process-environment, wall-clock, randomness or runtime-state source, goroutine start or select is reachable (module-restricted VTA reachability) from a transaction / block / governance / wasm / hook entry point, unless its value flows only into logging or telemetry")
 	o.Rule("C08.R2", "every production range over a map is order-insensitive (E0), builds a slice that is sorted before any other use (E1-sorted), or is individually justified; early exits, last-writer-wins assignments, float accumulation and state-mutating calls inside a map range are violations")
@@ -1523,4 +1575,51 @@ func zoneSensitiveUse(v ssa.Value, depth int) string {
 		}
 	}
 	return ""
+}
+
+// sliceHasOptionRead: the expression v is computed (through operators, conversions and call arguments, within
+// one function) from a servertypes.AppOptions.Get call; returns that call.
+func sliceHasOptionRead(v ssa.Value) ssa.CallInstruction {
+	seen := map[ssa.Value]bool{}
+	var found ssa.CallInstruction
+	var walk func(v ssa.Value, d int)
+	walk = func(v ssa.Value, d int) {
+		if v == nil || d > 8 || seen[v] || found != nil {
+			return
+		}
+		seen[v] = true
+		switch x := v.(type) {
+		case *ssa.Call:
+			if x.Call.IsInvoke() && x.Call.Method.Name() == "Get" && strings.Contains(x.Call.Value.Type().String(), "AppOptions") {
+				found = x
+				return
+			}
+			for _, a := range x.Call.Args {
+				walk(a, d+1)
+			}
+		case *ssa.Extract:
+			walk(x.Tuple, d+1)
+		case *ssa.BinOp:
+			walk(x.X, d+1)
+			walk(x.Y, d+1)
+		case *ssa.UnOp:
+			walk(x.X, d+1)
+		case *ssa.Convert:
+			walk(x.X, d+1)
+		case *ssa.ChangeType:
+			walk(x.X, d+1)
+		case *ssa.ChangeInterface:
+			walk(x.X, d+1)
+		case *ssa.MakeInterface:
+			walk(x.X, d+1)
+		case *ssa.TypeAssert:
+			walk(x.X, d+1)
+		case *ssa.Phi:
+			for _, e := range x.Edges {
+				walk(e, d+1)
+			}
+		}
+	}
+	walk(v, 0)
+	return found
 }
